@@ -31,7 +31,7 @@ CGI_SHADOW = [b"Remote-Addr", b"Server-Name", b"Server-Port", b"Request-Method",
 
 def gen(W):
     sc = {}
-    m = reqgen.gen_message(W, 0)
+    m = reqgen.gen_message(W, 0, {"big_body": W.choice([2000, 9000, 30000])})
     # extra field material
     extra = []
     for _ in range(W.draw(5)):
@@ -44,7 +44,7 @@ def gen(W):
     sc["url_scheme"] = W.choice(["http", "https"])
     sc["server_name"] = W.choice(["waitress.invalid", "example.org", "srv"])
     sc["unix"] = W.chance(0.25)
-    sc["inbuf_overflow"] = W.choice([524288, 100, 10])
+    sc["inbuf_overflow"] = W.choice([524288, 20000, 8193, 100, 10])
     sc["recv_bytes"] = W.choice([8192, 64, 5])
     sc["cut"] = W.draw(500)
     return sc
